@@ -41,6 +41,22 @@ fn decimal_to_value(value: Decimal) -> Result<Value, PdfError> {
     Ok(decimal_to_f64(value)?.into_value())
 }
 
+/// Monetary figure for display: rounded to pence as a `Decimal` (midpoints away from zero,
+/// like `cgt_format::format_gbp`) before the lossy conversion to a float, so the template
+/// never has to round a binary approximation of a half-penny.
+fn money_to_value(value: Decimal) -> Result<Value, PdfError> {
+    decimal_to_value(cgt_format::round_gbp(value))
+}
+
+/// `total / quantity` as a monetary figure (zero when there is no quantity).
+fn unit_money_to_value(total: Decimal, quantity: Decimal) -> Result<Value, PdfError> {
+    if quantity == Decimal::ZERO {
+        money_to_value(Decimal::ZERO)
+    } else {
+        money_to_value(total / quantity)
+    }
+}
+
 fn date_dict(date: NaiveDate) -> Dict {
     let mut dict = Dict::new();
     dict.insert("year".into(), (date.year() as i64).into_value());
@@ -58,7 +74,7 @@ fn optional_date_value(date: Option<NaiveDate>) -> Value {
 
 fn currency_amount_value(amount: &CurrencyAmount) -> Result<Value, PdfError> {
     let mut dict = Dict::new();
-    dict.insert("amount".into(), decimal_to_value(amount.amount)?);
+    dict.insert("amount".into(), money_to_value(amount.amount)?);
     dict.insert(
         "currency".into(),
         amount.currency.code().to_string().into_value(),
@@ -123,12 +139,12 @@ fn build_summary_rows(report: &TaxReport) -> Result<Vec<Value>, PdfError> {
             "disposal_count".into(),
             (year.disposal_count() as i64).into_value(),
         );
-        row.insert("net_gain".into(), decimal_to_value(year.net_gain)?);
-        row.insert("total_gain".into(), decimal_to_value(year.total_gain)?);
-        row.insert("total_loss".into(), decimal_to_value(year.total_loss)?);
-        row.insert("gross_proceeds".into(), decimal_to_value(gross_proceeds)?);
-        row.insert("exemption".into(), decimal_to_value(exemption)?);
-        row.insert("taxable".into(), decimal_to_value(taxable)?);
+        row.insert("net_gain".into(), money_to_value(year.net_gain)?);
+        row.insert("total_gain".into(), money_to_value(year.total_gain)?);
+        row.insert("total_loss".into(), money_to_value(year.total_loss)?);
+        row.insert("gross_proceeds".into(), money_to_value(gross_proceeds)?);
+        row.insert("exemption".into(), money_to_value(exemption)?);
+        row.insert("taxable".into(), money_to_value(taxable)?);
         rows.push(row.into_value());
     }
     Ok(rows)
@@ -172,7 +188,11 @@ fn build_holdings_rows(report: &TaxReport) -> Result<(bool, Vec<Value>), PdfErro
             let mut row = Dict::new();
             row.insert("ticker".into(), h.ticker.clone().into_value());
             row.insert("quantity".into(), decimal_to_value(h.quantity)?);
-            row.insert("total_cost".into(), decimal_to_value(h.total_cost)?);
+            row.insert("total_cost".into(), money_to_value(h.total_cost)?);
+            row.insert(
+                "avg_cost".into(),
+                unit_money_to_value(h.total_cost, h.quantity)?,
+            );
             Ok(row.into_value())
         })
         .collect::<Result<Vec<_>, PdfError>>()?;
@@ -277,13 +297,21 @@ fn build_disposal_dict(disposal: &Disposal) -> Result<Dict, PdfError> {
     dict.insert("ticker".into(), disposal.ticker.clone().into_value());
     dict.insert("date".into(), date_dict(disposal.date).into_value());
     dict.insert("quantity".into(), decimal_to_value(disposal.quantity)?);
+    let sell_fees = disposal.gross_proceeds - disposal.proceeds;
     dict.insert(
         "gross_proceeds".into(),
-        decimal_to_value(disposal.gross_proceeds)?,
+        money_to_value(disposal.gross_proceeds)?,
     );
-    dict.insert("proceeds".into(), decimal_to_value(disposal.proceeds)?);
-    dict.insert("total_gain".into(), decimal_to_value(total_gain)?);
-    dict.insert("total_cost".into(), decimal_to_value(total_cost)?);
+    dict.insert(
+        "unit_price".into(),
+        unit_money_to_value(disposal.gross_proceeds, disposal.quantity)?,
+    );
+    dict.insert("fees".into(), money_to_value(sell_fees)?);
+    dict.insert("has_fees".into(), (sell_fees > Decimal::ZERO).into_value());
+    dict.insert("proceeds".into(), money_to_value(disposal.proceeds)?);
+    dict.insert("total_gain".into(), money_to_value(total_gain)?);
+    dict.insert("is_gain".into(), (total_gain >= Decimal::ZERO).into_value());
+    dict.insert("total_cost".into(), money_to_value(total_cost)?);
 
     let matches: Vec<Value> = disposal
         .matches
@@ -292,7 +320,11 @@ fn build_disposal_dict(disposal: &Disposal) -> Result<Dict, PdfError> {
             let mut match_dict = Dict::new();
             match_dict.insert("rule".into(), match_rule_label(&m.rule).into_value());
             match_dict.insert("quantity".into(), decimal_to_value(m.quantity)?);
-            match_dict.insert("allowable_cost".into(), decimal_to_value(m.allowable_cost)?);
+            match_dict.insert("allowable_cost".into(), money_to_value(m.allowable_cost)?);
+            match_dict.insert(
+                "unit_cost".into(),
+                unit_money_to_value(m.allowable_cost, m.quantity)?,
+            );
             match_dict.insert(
                 "acquisition_date".into(),
                 optional_date_value(m.acquisition_date),
